@@ -667,7 +667,11 @@ class REPEX_state:
                         continue
                     columns = [r for r in range(n) if r != j]
                     M = sub_arr[:, columns]
-                    f = self.fast_glynn_perm(M)
+                    # The permanent of a non-negative matrix is
+                    # non-negative; Glynn's signed sum can round a tiny
+                    # one to just below zero, and a negative entry makes
+                    # rgen.choice(p=...) in pick() raise.
+                    f = max(self.fast_glynn_perm(M), 0)
                     out[i][j] = f * scaled_arr[i][j]
             return np.sum(out, axis=1), np.sum(out, axis=0)
 
